@@ -14,7 +14,9 @@
 (* Sub-block kinds (Layout[b].kind):                                       *)
 (*   "scalar": exactly one item;   "vector": n items, one row;             *)
 (*   "multir": rows x n items, each row padded to the alignment            *)
-(*             (leading dimension = LeadingDim(elem, n)).                  *)
+(*             (leading dimension = LeadingDim(elem, n));                  *)
+(*   "multiv": n columns of `rows` items, each column padded to the        *)
+(*             alignment (tbfmemorymultivvector.hpp).                      *)
 (* The state machine follows the life cycle of one object: reset (with     *)
 (* reuse when the old allocation is large enough), move to another object, *)
 (* byte copy + view.  Bytes are abstracted to byte RANGES; every accessor  *)
@@ -37,7 +39,9 @@ Layouts == << << B("vector", 1, 1) >>,
               << B("vector", 3, 1), B("vector", 2, 1) >>,
               << B("multir", 16, 3), B("vector", 8, 1) >>,
               << B("vector", 4096, 1) >>,
-              << B("scalar", 1, 1), B("multir", 1, 2), B("vector", 24, 1), B("multir", 64, 2) >> >>
+              << B("scalar", 1, 1), B("multir", 1, 2), B("vector", 24, 1), B("multir", 64, 2) >>,
+              << B("multiv", 8, 3) >>,
+              << B("vector", 3, 1), B("multiv", 16, 5), B("multiv", 1, 65) >> >>
 Counts == (0..MaxItems) \cup ExtraCounts
 SmallCounts == {0, 2, MaxItems} \cup { x \in ExtraCounts : x % 2 = 1 }
 LeadingDim(elem, n) == ((elem * n + Align - 1) \div Align) * Align
@@ -46,6 +50,7 @@ BlockSize(L, b, n) == LET d == Layouts[L][b] IN
     CASE d.kind = "scalar" -> LeadingDim(d.elem, 1)
       [] d.kind = "vector" -> LeadingDim(d.elem, n)
       [] d.kind = "multir" -> d.rows * LeadingDim(d.elem, n)
+      [] d.kind = "multiv" -> n * LeadingDim(d.elem, d.rows)     \* column major: every item is a padded column of `rows` elements
 \* offsets of the sub-blocks (GetSizeAndOffsetOfBlocks)
 Offsets(L, cnt) == LET RECURSIVE O(_)
                        O(b) == IF b = 1 THEN 0 ELSE O(b-1) + BlockSize(L, b-1, cnt[b-1])
@@ -115,12 +120,17 @@ AccessorInBlock == Live => \A b \in Blocks :
     LET d == Layouts[L][b]
         rows == IF d.kind = "multir" THEN d.rows ELSE 1
         ld == IF d.kind = "multir" THEN LeadingDim(d.elem, cnt[b]) ELSE 0 IN
+    IF d.kind = "multiv"
+    THEN cnt[b] > 0 => LET cld == LeadingDim(d.elem, d.rows) IN
+                       offs[b] + (cnt[b] - 1) * cld + d.rows * d.elem <= BRange(b)[2]
+    ELSE
     \A r \in 0..(rows-1) : cnt[b] > 0 =>
         LET first == offs[b] + r * ld
             last == offs[b] + r * ld + (cnt[b] - 1) * d.elem + d.elem IN
         first >= BRange(b)[1] /\ last <= BRange(b)[2]
 \* rows of a multi-row block never overlap each other
-RowsDisjoint == Live => \A b \in Blocks : Layouts[L][b].kind = "multir" => LeadingDim(Layouts[L][b].elem, cnt[b]) >= Layouts[L][b].elem * cnt[b]
+RowsDisjoint == Live => \A b \in Blocks : /\ Layouts[L][b].kind = "multir" => LeadingDim(Layouts[L][b].elem, cnt[b]) >= Layouts[L][b].elem * cnt[b]
+                                          /\ Layouts[L][b].kind = "multiv" => LeadingDim(Layouts[L][b].elem, Layouts[L][b].rows) >= Layouts[L][b].elem * Layouts[L][b].rows
 \* offsets are aligned (every block starts on an alignment boundary of the buffer)
 Aligned == Live => \A b \in Blocks : offs[b] % Align = 0
 \* what a view reads back from the trailer is what was written
